@@ -1146,4 +1146,182 @@ theorem commentsLoop_tr {s₁ s₂ : Side} {L : Lex} {N k : Nat} (hk : k ≤ N) 
       simp [commentsLoop, hr, hm1 m (by omega)]
     | fuel => exact absurd hr hx
 
+/-! ### terminals, whitespace / comment skipping, token alternatives -/
+
+/-- the parts of `check` that do not concern single pairs -/
+structure Base (s₁ s₂ : Side) (d : Nat) (R : Rel) : Prop where
+  ws : s₁.g.ws = s₂.g.ws
+  skipws : s₁.g.skipws = s₂.g.skipws
+  com : match s₁.g.comments, s₂.g.comments with
+    | none, none => True
+    | some c₁, some c₂ => inR s₁ s₂ d R c₁ c₂ = true
+    | _, _ => False
+
+theorem skipWs_eq {s₁ s₂ : Side} {d : Nat} {R : Rel} (hb : Base s₁ s₂ d R) (L : Lex) :
+    skipWs s₁.g L = skipWs s₂.g L := by
+  funext pos
+  simp only [skipWs, hb.ws, hb.skipws]
+
+theorem skip_tr {s₁ s₂ : Side} {H : Hyps} {L : Lex} (hs₁ : s₁.Ok H L) (hs₂ : s₂.Ok H L) {d : Nat} {R : Rel}
+    (hb : Base s₁ s₂ d R) {N : Nat} (hP : P s₁ s₂ L R N) {k : Nat} (hk : k ≤ N) (c : Bool) (p : Nat)
+    (hne : skipGen s₁.g L (fun e q => parse s₁.g L k e true q) k c p ≠ .fuel) :
+    ∃ m₀, ∀ m, m₀ ≤ m →
+      skipGen s₂.g L (fun e q => parse s₂.g L m e true q) m c p =
+        skipGen s₁.g L (fun e q => parse s₁.g L k e true q) k c p := by
+  have hsk := skipWs_eq hb L
+  have hcom := hb.com
+  unfold skipGen at hne ⊢
+  rw [← hsk]
+  by_cases hc : c = true
+  · exact ⟨0, fun _ _ => by simp [hc]⟩
+  · simp only [hc] at hne ⊢
+    cases h1 : s₁.g.comments with
+    | none =>
+      cases h2 : s₂.g.comments with
+      | none => exact ⟨0, fun _ _ => rfl⟩
+      | some _ => rw [h1, h2] at hcom; exact absurd hcom (by simp)
+    | some c₁ =>
+      cases h2 : s₂.g.comments with
+      | none => rw [h1, h2] at hcom; exact absurd hcom (by simp)
+      | some c₂ =>
+        rw [h1, h2] at hcom
+        simp only [h1] at hne
+        simp only [Bool.false_eq_true, if_false]
+        obtain ⟨m₀, hm₀⟩ := commentsLoop_tr hk (inR_tr hs₁ hs₂ hP hcom) (skipWs s₁.g L) k (skipWs s₁.g L p) hne
+        exact ⟨max m₀ k, fun m hm => hm₀ m (by omega) m (by omega)⟩
+
+theorem parse_match {g : Graph} {L : Lex} {n a c p} {nd : Node} (hnd : g.get a = some nd)
+    (hs : supported nd = true) (hk : nd.kind = .str ∨ nd.kind = .re ∨ nd.kind = .eof) :
+    parse g L (n+1) a c p =
+      match skipGen g L (fun e q => parse g L n e true q) n c p with
+      | .ok _ p' => finish nd (lexTok nd L p')
+      | r => r := by
+  rw [parse]
+  simp only [hnd, hs, Bool.not_true, Bool.false_eq_true, if_false]
+  rcases hk with hk | hk | hk <;> simp only [hk] <;> rfl
+
+/-- result of a plain regex token that never matches empty -/
+def tokRes (L : Lex) (t p' : Nat) : Res :=
+  match L.tok t p' with
+  | some len => .ok .T (p' + len)
+  | none => .fail
+
+def firstRes (L : Lex) (ts : List Nat) (p' : Nat) : Res :=
+  match firstTok L p' ts with
+  | some len => .ok .T (p' + len)
+  | none => .fail
+
+theorem re_lex {H : Hyps} {L : Lex} (hL : LexOk H L) {nd : Node} (hk : nd.kind = .re)
+    (hsup : nd.suppress = false) (hne : nd.tok ∈ H.nonempty) (p' : Nat) :
+    finish nd (lexTok nd L p') = tokRes L nd.tok p' := by
+  simp only [lexTok, hk, tokRes]
+  cases ht : L.tok nd.tok p' with
+  | none => rfl
+  | some len =>
+    have := hL.1 nd.tok hne p' len ht
+    have hl : len ≠ 0 := by omega
+    simp [finish, hsup, hl]
+
+theorem reTok_some {s : Side} {H : Hyps} {d k t : Nat} (h : reTok s H d k = some t) :
+    ∃ nd, s.g.get (peel s d k) = some nd ∧ nd.kind = .re ∧ supported nd = true ∧ nd.suppress = false ∧
+      nd.tok ∈ H.nonempty ∧ nd.tok = t := by
+  unfold reTok at h
+  cases hg : s.g.get (peel s d k) with
+  | none => simp [hg] at h
+  | some nd =>
+    simp only [hg] at h
+    split at h
+    · rename_i hc
+      simp only [Option.some.injEq] at h
+      simp only [Bool.and_eq_true, beq_iff_eq, Bool.not_eq_true', List.contains_iff_mem] at hc
+      exact ⟨nd, rfl, hc.1.1.1, hc.1.1.2, hc.1.2, hc.2, h⟩
+    · simp at h
+
+theorem tokRes_cases (L : Lex) (t p' : Nat) :
+    tokRes L t p' = .fail ∨ ∃ len, L.tok t p' = some len ∧ tokRes L t p' = .ok .T (p' + len) := by
+  simp only [tokRes]
+  cases L.tok t p' with
+  | none => exact Or.inl rfl
+  | some len => exact Or.inr ⟨len, rfl, rfl⟩
+
+theorem firstRes_cons (L : Lex) (t : Nat) (ts : List Nat) (p' : Nat) :
+    firstRes L (t :: ts) p' = match tokRes L t p' with | .fail => firstRes L ts p' | r => r := by
+  simp only [firstRes, firstTok, tokRes]
+  cases L.tok t p' <;> rfl
+
+/-- left side: an ordered choice of plain regex tokens is the first matching token after skipping -/
+theorem choice_toks_left {s : Side} {H : Hyps} {L : Lex} (hs : s.Ok H L) {d n : Nat} {c : Bool} {p p' : Nat} {w : Sh}
+    (hskip : skipGen s.g L (fun e q => parse s.g L n e true q) n c p = .ok w p') :
+    ∀ ks ts, reToks s H d ks = some ts →
+      choiceLoop (fun e q => parse s.g L (n+1) e c q) ks p p ≠ .fuel →
+      choiceLoop (fun e q => parse s.g L (n+1) e c q) ks p p = firstRes L ts p' := by
+  intro ks
+  induction ks with
+  | nil => intro ts h _; simp only [reToks, Option.some.injEq] at h; subst h; rfl
+  | cons k ks ih =>
+    intro ts h hne
+    simp only [reToks] at h
+    cases hk : reTok s H d k with
+    | none => simp [hk] at h
+    | some t =>
+      cases hks : reToks s H d ks with
+      | none => simp [hk, hks] at h
+      | some ts' =>
+        simp only [hk, hks, Option.some.injEq] at h
+        subst h
+        obtain ⟨nd, hg, hkind, hsupp, hsup, hnon, htok⟩ := reTok_some hk
+        simp only [choiceLoop] at hne ⊢
+        have hkne : parse s.g L (n+1) k c p ≠ .fuel := by
+          intro hx; rw [hx] at hne; exact hne rfl
+        have hpd := peel_down hs d (n+1) k c p hkne
+        rw [parse_match hg hsupp (Or.inr (Or.inl hkind)), hskip] at hpd
+        simp only at hpd
+        rw [re_lex hs.lex hkind hsup hnon, htok] at hpd
+        rw [← hpd] at hne ⊢
+        rw [firstRes_cons]
+        rcases tokRes_cases L t p' with htr | ⟨len, _, htr⟩
+        · rw [htr] at hne ⊢
+          simp only at hne ⊢
+          exact ih ts' hks hne
+        · rw [htr]
+          simp [Sh.wrap1]
+
+/-- right side: the same, for all sufficiently large fuel -/
+theorem choice_toks_right {s : Side} {H : Hyps} {L : Lex} (hs : s.Ok H L) {d : Nat} {c : Bool} {p p' : Nat} {w : Sh}
+    (hskip : ∃ m₀, ∀ m, m₀ ≤ m → skipGen s.g L (fun e q => parse s.g L m e true q) m c p = .ok w p') :
+    ∀ ks ts, reToks s H d ks = some ts →
+      ∃ m₁, ∀ m, m₁ ≤ m → choiceLoop (fun e q => parse s.g L m e c q) ks p p = firstRes L ts p' := by
+  obtain ⟨ms, hms⟩ := hskip
+  intro ks
+  induction ks with
+  | nil => intro ts h; simp only [reToks, Option.some.injEq] at h; subst h; exact ⟨0, fun _ _ => rfl⟩
+  | cons k ks ih =>
+    intro ts h
+    simp only [reToks] at h
+    cases hk : reTok s H d k with
+    | none => simp [hk] at h
+    | some t =>
+      cases hks : reToks s H d ks with
+      | none => simp [hk, hks] at h
+      | some ts' =>
+        simp only [hk, hks, Option.some.injEq] at h
+        subst h
+        obtain ⟨nd, hg, hkind, hsupp, hsup, hnon, htok⟩ := reTok_some hk
+        have hpk : parse s.g L (ms+1) (peel s d k) c p = tokRes L t p' := by
+          rw [parse_match hg hsupp (Or.inr (Or.inl hkind)), hms ms (Nat.le_refl _)]
+          simp only
+          rw [re_lex hs.lex hkind hsup hnon, htok]
+        have hfin : tokRes L t p' ≠ .fuel := by
+          simp only [tokRes]; cases L.tok t p' <;> simp
+        obtain ⟨m1, hm1⟩ := peel_ev hs hpk hfin
+        obtain ⟨m2, hm2⟩ := ih ts' hks
+        refine ⟨max m1 m2, fun m hm => ?_⟩
+        simp only [choiceLoop, hm1 m (by omega)]
+        rw [firstRes_cons]
+        rcases tokRes_cases L t p' with htr | ⟨len, _, htr⟩
+        · rw [htr]
+          exact hm2 m (by omega)
+        · rw [htr]
+          simp [Sh.wrap1]
+
 end Rec
